@@ -33,15 +33,28 @@ QUICK_SHARDS = 4
 MIN_NONTRIVIAL = {"quick": 1200, "thorough": 20000}
 
 HOSTILE = set(POOL_HOSTILE)
+HELPER_NAMES = {"partial", "deterministic_choice", "ExperimentConditionalFailedError", "choose_experiment_variant", "kwargs", "map", "str"}
+PY_KEYWORDS = HOSTILE - HELPER_NAMES  # Python hard keywords that are not DSL keywords, and __debug__
 
 
 def program_identifiers(prog):
     return {prog.id} | set(prog.splitters or []) | set(prog.identifiers)
 
 
-def mechanism(prog, default):
-    if program_identifiers(prog) & HOSTILE:
-        return "C07/py-reserved-identifier"
+def mechanism(prog, default, failure="failed"):
+    """Classifier for the known-finding file.  The key names *which kind* of identifier sits in *which role* and
+    *how* the failure shows, so that a reserved name failing in a new role or in a new way is still a violation:
+        C07/py-keyword-identifier/<failure>          a Python hard keyword / __debug__ used as any identifier
+        C07/helper-name-as-field/<failure>           partial, str, map, kwargs, ... used as splitter or condition field
+        C07/helper-name-as-experiment-name/<failure> ... used only as the experiment's name
+    <failure> is construct-<Exception>, call-<Exception> or not-a-group."""
+    fields = set(prog.splitters or []) | set(prog.identifiers)
+    if (fields | {prog.id}) & PY_KEYWORDS:
+        return f"C07/py-keyword-identifier/{failure}"
+    if fields & HELPER_NAMES:
+        return f"C07/helper-name-as-field/{failure}"
+    if prog.id in HELPER_NAMES:
+        return f"C07/helper-name-as-experiment-name/{failure}"
     return default
 
 
@@ -64,7 +77,7 @@ def exercise(ctx, im, text, gp, ninputs, layer, nontrivial, prog=None):
         ctx.nontrivial(text)
     if c[0] != "ok":
         ctx.violation("construct-failed", dict(text=text, error=c[1:], layer=layer),
-                      mechanism=mechanism(prog, "C07/construct-" + c[1]))
+                      mechanism=mechanism(prog, "C07/construct-" + c[1], "construct-" + c[1]))
         return 0
     ev = c[1]
     envs, _ = choose_inputs(prog, gp, rnd, ninputs, pool_factor=3)
@@ -84,8 +97,9 @@ def exercise(ctx, im, text, gp, ninputs, layer, nontrivial, prog=None):
             ctx.count(layer + "/group")
             continue
         kind = "call-raised" if out[0] == "exc" else "not-a-group"
+        failure = "call-" + out[1] if out[0] == "exc" else "not-a-group"
         ctx.violation(kind, dict(text=text, env=env, got=out, layer=layer),
-                      mechanism=mechanism(prog, f"C07/{kind}-{out[1] if out[0] == 'exc' else ''}"))
+                      mechanism=mechanism(prog, f"C07/{kind}-{out[1] if out[0] == 'exc' else ''}", failure))
         break
     return judged
 
@@ -257,4 +271,4 @@ def replay(ctx, kind, w):
             out = im.call(c[1], w["env"])
             if not (out[0] == "unroutable" or (out[0] == "ok" and is_member(st[1], out[1]))):
                 ctx.violation("call-raised" if out[0] == "exc" else "not-a-group", dict(text=w["text"], env=w["env"], got=out),
-                              mechanism=mechanism(st[1], "C07/replayed"))
+                              mechanism=mechanism(st[1], "C07/replayed", "call-" + out[1] if out[0] == "exc" else "not-a-group"))
